@@ -57,7 +57,6 @@ func placeholderValue(v ssa.Value) bool {
 // syntax node type the function translates (its first go/ast parameter), the placeholder, and a fact that
 // must hold at the return ("" for none).
 var r02gAudit = []struct{ node, ret, fact, why string }{
-	{"*go/ast.SliceExpr", "nil", "", "infeasible: the four nil-ness combinations of Low and High are handled above (both present, only High, only Low return; both absent is rejected)"},
 	{"*", "nil", ".Specs)", "a declaration group without specs (`type ()`, `var ()`) declares nothing"},
 }
 
@@ -165,6 +164,20 @@ func checkR02g(p *Prog, r *Report) {
 			if abs != "" {
 				r.OK("R02g", key+" (absent input)", instrPos(ret), "returned under the fact "+abs+": nothing to translate")
 				continue
+			}
+			// infeasible: every abstract path of the function that ends in this return is contradictory (the
+			// cases before it are exhaustive)
+			if ips, ok := p.ipaths(f); ok {
+				n := 0
+				for _, ip := range ips {
+					if ip.Exit == "return" && ip.RetIn == ret {
+						n++
+					}
+				}
+				if n == 0 {
+					r.OK("R02g", key+" (infeasible)", instrPos(ret), "no feasible abstract path of the function ends in this return: the cases tested before it are exhaustive")
+					continue
+				}
 			}
 			short := f.Name()
 			node := ""
